@@ -208,48 +208,195 @@ Proof.
   destruct v0; inversion H; reflexivity.
 Qed.
 
+(** ** [B2ExtArray] comes from a uext/sext line whose operand is an array *)
+Definition noext {A} (m : b2res A) : Prop := m <> B2Err B2ExtArray.
+
+Lemma noext_ok {A} (a : A) : noext (B2Ok a).
+Proof. discriminate. Qed.
+
+Lemma noext_err {A} e : e <> B2ExtArray -> noext (@B2Err A e).
+Proof. intros H1 H; inversion H; auto. Qed.
+
+Lemma noext_bind {A B} (m : b2res A) (f : A -> b2res B) :
+  noext m -> (forall a, noext (f a)) -> noext (b2bind m f).
+Proof.
+  intros H1 Hf. destruct m as [a|e]; cbn [b2bind]; [apply Hf|].
+  intros H; inversion H; subst. apply H1. reflexivity.
+Qed.
+
+Ltac nx :=
+  repeat first
+    [ apply noext_ok
+    | (apply noext_err; discriminate)
+    | (apply noext_bind; [|intros ?])
+    | match goal with
+      | |- noext (if ?c then _ else _) => destruct c
+      | |- noext (match ?x with _ => _ end) => destruct x
+      | |- noext (let '(_, _) := ?p in _) => destruct p
+      end ].
+
+Lemma noext_need toks n : noext (need toks n).
+Proof. unfold need. nx. Qed.
+Lemma noext_s_sort S tok : noext (s_sort S tok).
+Proof. unfold s_sort, s_opt. nx. Qed.
+Lemma noext_s_node S tok : noext (s_node S tok).
+Proof. unfold s_node. nx. Qed.
+Lemma noext_s_num tok : noext (s_num tok).
+Proof. unfold s_num, s_opt. nx. Qed.
+Lemma noext_s_state S tok : noext (s_state S tok).
+Proof. unfold s_state, s_opt. nx. Qed.
+Lemma noext_check_sort t v : noext (check_sort t v).
+Proof. unfold check_sort. nx. Qed.
+Lemma noext_sem_const r w tok : noext (sem_const r w tok).
+Proof. unfold sem_const. nx. Qed.
+Lemma noext_sem_binary op a b : noext (sem_binary op a b).
+Proof. unfold sem_binary. nx. Qed.
+Lemma noext_sem_ternary op a b c : noext (sem_ternary op a b c).
+Proof. unfold sem_ternary. nx. Qed.
+
+Ltac nx2 :=
+  repeat first
+    [ apply noext_need | apply noext_s_sort | apply noext_s_node | apply noext_s_num | apply noext_s_state
+    | apply noext_check_sort | apply noext_sem_const | apply noext_sem_binary
+    | apply noext_sem_ternary | apply noext_ok
+    | (apply noext_err; discriminate)
+    | (apply noext_bind; [|intros ?])
+    | match goal with
+      | |- noext (if ?c then _ else _) => destruct c
+      | |- noext (match ?x with _ => _ end) => destruct x
+      end ].
+
+Lemma noext_binary_line S toks id op : noext (sem_binary_line S toks id op).
+Proof. unfold sem_binary_line. nx2. Qed.
+Lemma noext_ternary_line S toks id op : noext (sem_ternary_line S toks id op).
+Proof. unfold sem_ternary_line. nx2. Qed.
+Lemma noext_const_line S toks id op : noext (sem_const_line S toks id op).
+Proof. unfold sem_const_line. nx2. Qed.
+Lemma noext_input_line val S toks id : noext (sem_input_line val S toks id).
+Proof. unfold sem_input_line. nx2. Qed.
+Lemma noext_state_line val S toks id : noext (sem_state_line val S toks id).
+Proof. unfold sem_state_line. nx2. Qed.
+Lemma noext_init_next_line S toks b : noext (sem_init_next_line S toks b).
+Proof. unfold sem_init_next_line. nx2. Qed.
+Lemma noext_output_line S toks : noext (sem_output_line S toks).
+Proof. unfold sem_output_line. nx2. Qed.
+Lemma noext_sort_line S toks id : noext (sem_sort_line S toks id).
+Proof. unfold sem_sort_line. nx2. Qed.
+Lemma noext_prop_line S toks b : noext (sem_prop_line S toks b).
+Proof. unfold sem_prop_line. nx2. Qed.
+
+Lemma sem_unary_ext op toks v :
+  sem_unary op toks v = B2Err B2ExtArray ->
+  seq op "uext" || seq op "sext" = true /\ is_bv_ty (sort_of_value v) = false.
+Proof.
+  unfold sem_unary. destruct v as [w a|iw dw f].
+  - intros H. exfalso. revert H.
+    match goal with |- ?m = _ -> False => change (noext m) end.
+    repeat match goal with |- noext (if ?c then _ else _) => destruct c end; nx2.
+  - destruct (seq op "uext" || seq op "sext"); [auto|discriminate].
+Qed.
+
+Lemma sem_line_ext val S l :
+  sem_line val S l = B2Err B2ExtArray ->
+  seq (tokn l 1) "uext" || seq (tokn l 1) "sext" = true /\
+  exists v, s_node S (tokn l 3) = B2Ok v /\ is_bv_ty (sort_of_value v) = false.
+Proof.
+  unfold sem_line. intros H. destruct l as [|t0 rest]; [discriminate|].
+  destruct (parse_line_id t0) as [[id neg]|]; [|discriminate]. destruct neg; [discriminate|].
+  destruct (need (t0 :: rest) 2) as [[]|e] eqn:E2; cbn [b2bind] in H.
+  2: { exfalso. inversion H; subst e. exact (noext_need (t0 :: rest) 2 E2). }
+  set (toks := t0 :: rest) in *. cbv zeta in H.
+  destruct (str_mem (tokn toks 1) unsupported_ops); [discriminate|].
+  destruct (seq (tokn toks 1) "sort"). { exfalso. exact (noext_sort_line _ _ _ H). }
+  destruct (seq (tokn toks 1) "input"). { exfalso. exact (noext_input_line _ _ _ _ H). }
+  destruct (seq (tokn toks 1) "state"). { exfalso. exact (noext_state_line _ _ _ _ H). }
+  destruct (seq (tokn toks 1) "init"). { exfalso. exact (noext_init_next_line _ _ _ H). }
+  destruct (seq (tokn toks 1) "next"). { exfalso. exact (noext_init_next_line _ _ _ H). }
+  destruct (seq (tokn toks 1) "output"). { exfalso. exact (noext_output_line _ _ H). }
+  destruct (seq (tokn toks 1) "bad"). { exfalso. exact (noext_prop_line _ _ _ H). }
+  destruct (seq (tokn toks 1) "constraint"). { exfalso. exact (noext_prop_line _ _ _ H). }
+  destruct (seq (tokn toks 1) "zero" || seq (tokn toks 1) "one" || seq (tokn toks 1) "ones" || seq (tokn toks 1) "const"
+            || seq (tokn toks 1) "constd" || seq (tokn toks 1) "consth").
+  { exfalso. exact (noext_const_line _ _ _ _ H). }
+  destruct (is_unary (tokn toks 1)).
+  2: { exfalso. destruct (is_binary (tokn toks 1)); [exact (noext_binary_line _ _ _ _ H)|].
+       destruct (seq (tokn toks 1) "ite" || seq (tokn toks 1) "write"); [exact (noext_ternary_line _ _ _ _ H)|discriminate]. }
+  unfold sem_unary_line in H.
+  destruct (need toks 4) as [[]|e] eqn:E4; cbn [b2bind] in H.
+  2: { exfalso. inversion H; subst e. exact (noext_need toks 4 E4). }
+  destruct (s_sort S (tokn toks 2)) as [t|e] eqn:Et; cbn [b2bind] in H.
+  2: { exfalso. inversion H; subst e. exact (noext_s_sort S _ Et). }
+  destruct (s_node S (tokn toks 3)) as [v|e] eqn:En; cbn [b2bind] in H.
+  2: { exfalso. inversion H; subst e. exact (noext_s_node S _ En). }
+  destruct (sem_unary (tokn toks 1) toks v) as [r|e] eqn:Eu; cbn [b2bind] in H.
+  - exfalso. destruct (check_sort t r) as [r'|e] eqn:Ec; cbn [b2bind] in H; [discriminate|].
+    inversion H; subst e. exact (noext_check_sort t r Ec).
+  - inversion H; subst e. apply sem_unary_ext in Eu. destruct Eu as [Hop Hv]. split; [exact Hop|]. exists v. auto.
+Qed.
+
 (** ** the fold for the repaired reader *)
 Definition strict_err (e : b2err) : bool :=
   match e with B2IllSorted | B2ZeroWidth | B2PropWidth => true | _ => false end.
 
-Definition sconsistent3 (m : b2res b2sem) (P : b2sem -> Prop) : Prop :=
-  match m with B2Ok S' => P S' | B2Err e => strict_err e = false end.
+(** with patches/0009 ([Fix2]) an extension of an array is rejected as well *)
+Definition strict_err2 (e : b2err) : bool :=
+  match e with B2IllSorted | B2ZeroWidth | B2PropWidth | B2ExtArray => true | _ => false end.
+
+Definition strict_err_v (v : code_variant) (e : b2err) : bool :=
+  match e with
+  | B2IllSorted | B2ZeroWidth | B2PropWidth => true
+  | B2ExtArray => match v with Fix2 => true | _ => false end
+  | _ => false
+  end.
+
+Definition sconsistent3 (v : code_variant) (m : b2res b2sem) (P : b2sem -> Prop) : Prop :=
+  match m with B2Ok S' => P S' | B2Err e => strict_err_v v e = false end.
 
 Section FoldFix.
   Variable rho : env.
   Hypothesis Hrho : env_wf rho.
   Variable val : b2val.
+  Variable v : code_variant.
+  Hypothesis Hv : is_fix v = true.
+
+  Lemma fold_v_no_err ls : forall st r, parse_fold_v v true ls st true = POk (r, false) -> False.
+  Proof.
+    induction ls as [|l' ls' IH']; intros s0 r H; cbn [parse_fold_v] in H.
+    - inversion H.
+    - destruct (parse_line_v v true s0 l'); try discriminate; eapply IH'; eauto.
+  Qed.
 
   Lemma fold_sim_fix ls : forall st S stf,
     inv st -> R rho st S ->
-    parse_fold_v Fix true ls st false = POk (stf, false) ->
+    parse_fold_v v true ls st false = POk (stf, false) ->
     agree rho val (p_inputs stf) (map st_sym (p_states stf)) ->
-    sconsistent3 (sem_fold val ls S) (fun S' => R rho stf S').
+    sconsistent3 v (sem_fold val ls S) (fun S' => R rho stf S').
   Proof.
     induction ls as [|l ls IH]; intros st S stf Hinv HR H Hag; cbn [parse_fold_v sem_fold] in *.
     - inversion H; subst. exact HR.
-    - destruct (parse_line_v Fix true st l) as [st1| |k] eqn:E; [| |discriminate].
-      + apply fix_line_ok in E. destruct E as [Hpre E]. apply fix_pre_parts in Hpre. destruct Hpre as (_ & Hz & Hpb).
+    - destruct (parse_line_v v true st l) as [st1| |k] eqn:E; [| |discriminate].
+      + pose proof E as E0.
+        apply (fix_line_ok v _ _ _ _ Hv) in E. destruct E as [Hpre E]. apply fix_pre_parts in Hpre. destruct Hpre as (_ & Hz & Hpb).
         assert (Hg : grows st1 stf).
-        { clear - H. revert H. generalize st1. induction ls as [|l' ls' IH']; intros s0 H; cbn [parse_fold_v] in H.
+        { clear - H Hv. revert H. generalize st1. induction ls as [|l' ls' IH']; intros s0 H; cbn [parse_fold_v] in H.
           - inversion H; apply grows_refl.
-          - destruct (parse_line_v Fix true s0 l') as [s1| |k] eqn:E1; try discriminate.
-            + apply fix_line_ok in E1. destruct E1 as [_ E1]. eapply grows_trans; [eapply parse_line_grows; eauto|apply IH'; auto].
-            + exfalso. clear - H. revert H. generalize s0. induction ls' as [|l2 ls2 IH2]; intros s2 H; cbn [parse_fold_v] in H.
-              * inversion H.
-              * destruct (parse_line_v Fix true s2 l2); try discriminate; eapply IH2; eauto. }
+          - destruct (parse_line_v v true s0 l') as [s1| |k] eqn:E1; try discriminate.
+            + apply (fix_line_ok v _ _ _ _ Hv) in E1. destruct E1 as [_ E1]. eapply grows_trans; [eapply parse_line_grows; eauto|apply IH'; auto].
+            + exfalso. eapply fold_v_no_err; eauto. }
         pose proof (line_sim rho Hrho val st S l st1 Hinv HR E (agree_grows _ _ _ _ Hg Hag)) as Hl.
         destruct (sem_line val S l) as [S1|e] eqn:Es; cbn [b2bind sconsistent sconsistent3] in *.
         * apply (IH st1 S1 stf); auto. eapply parse_line_inv; eauto.
-        * destruct e; cbn [strict_err]; try reflexivity; exfalso.
-          -- exact Hl.
-          -- apply sem_line_zero in Es. congruence.
-          -- apply sem_line_prop in Es. destruct Es as (Hop & v & Hn & Hv).
-             unfold prop_bool in Hpb. rewrite Hop, (node_opnd_ty _ _ _ _ _ HR Hn), Hv in Hpb. discriminate.
-      + exfalso. clear - H. revert H. generalize st. induction ls as [|l' ls' IH']; intros s0 H; cbn [parse_fold_v] in H.
-        * inversion H.
-        * destruct (parse_line_v Fix true s0 l'); try discriminate; eapply IH'; eauto.
+        * destruct e; cbn [strict_err_v]; try reflexivity.
+          -- exfalso. exact Hl.
+          -- exfalso. apply sem_line_zero in Es. congruence.
+          -- destruct v; try reflexivity. exfalso.
+             apply fix2_line_ok in E0. apply sem_line_ext in Es. destruct Es as (Hop & v0 & Hn & Hv0).
+             unfold ext_bv in E0. rewrite Hop, (node_opnd_ty _ _ _ _ _ HR Hn), Hv0 in E0. discriminate.
+          -- exfalso. apply sem_line_prop in Es. destruct Es as (Hop & v0 & Hn & Hv0).
+             unfold prop_bool in Hpb. rewrite Hop, (node_opnd_ty _ _ _ _ _ HR Hn), Hv0 in Hpb. discriminate.
+      + exfalso. eapply fold_v_no_err; eauto.
   Qed.
+
 End FoldFix.
 
 Lemma parse_raw_v_inv v dbg ls sy ren :
@@ -260,26 +407,57 @@ Proof.
   inversion H; subst. eauto.
 Qed.
 
-(** for the repaired reader: an ill-sorted text, a text with a zero-width sort and a text with a
-    non-Boolean bad/constraint are never accepted; and what is accepted agrees with the interpreter *)
+(** for every repaired reader: an ill-sorted text, a text with a zero-width sort and a text with a
+    non-Boolean bad/constraint are never accepted ([Fix2]: nor is an extension of an array); and
+    what is accepted agrees with the interpreter *)
+Theorem variant_rejects_ill_formed v ls sy ren rho e :
+  is_fix v = true -> env_wf rho ->
+  parse_raw_v v true ls = POk (sy, ren) ->
+  sem_run (induced_sys rho sy) ls = B2Err e -> strict_err_v v e = false.
+Proof.
+  intros Hv Hrho H Hs. apply parse_raw_v_inv in H. destruct H as (st & Hf & -> & _).
+  pose proof (fold_sim_fix rho Hrho (induced_sys rho (sys_of_pstate st)) v Hv ls p_empty b2sem_empty st
+                inv_empty (R_empty rho) Hf (induced_agree rho st)) as Hsim.
+  unfold sem_run in Hs. rewrite Hs in Hsim. exact Hsim.
+Qed.
+
+Theorem variant_system_sound v ls sy ren rho S :
+  is_fix v = true -> env_wf rho ->
+  parse_raw_v v true ls = POk (sy, ren) ->
+  sem_run (induced_sys rho sy) ls = B2Ok S -> sys_agrees rho sy S.
+Proof.
+  intros Hv Hrho H Hs. apply parse_raw_v_inv in H. destruct H as (st & Hf & -> & _).
+  pose proof (fold_sim_fix rho Hrho (induced_sys rho (sys_of_pstate st)) v Hv ls p_empty b2sem_empty st
+                inv_empty (R_empty rho) Hf (induced_agree rho st)) as Hsim.
+  unfold sem_run in Hs. rewrite Hs in Hsim. apply R_sys. exact Hsim.
+Qed.
+
 Theorem fix_rejects_ill_formed ls sy ren rho e :
   env_wf rho ->
   parse_raw_v Fix true ls = POk (sy, ren) ->
   sem_run (induced_sys rho sy) ls = B2Err e -> strict_err e = false.
 Proof.
-  intros Hrho H Hs. apply parse_raw_v_inv in H. destruct H as (st & Hf & -> & _).
-  pose proof (fold_sim_fix rho Hrho (induced_sys rho (sys_of_pstate st)) ls p_empty b2sem_empty st
-                inv_empty (R_empty rho) Hf (induced_agree rho st)) as Hsim.
-  unfold sem_run in Hs. rewrite Hs in Hsim. exact Hsim.
+  intros Hrho H Hs. pose proof (variant_rejects_ill_formed Fix ls sy ren rho e eq_refl Hrho H Hs) as Hx.
+  destruct e; cbn in *; congruence.
 Qed.
 
 Theorem fix_system_sound ls sy ren rho S :
   env_wf rho ->
   parse_raw_v Fix true ls = POk (sy, ren) ->
   sem_run (induced_sys rho sy) ls = B2Ok S -> sys_agrees rho sy S.
+Proof. apply variant_system_sound. reflexivity. Qed.
+
+Theorem fix2_rejects_ill_formed ls sy ren rho e :
+  env_wf rho ->
+  parse_raw_v Fix2 true ls = POk (sy, ren) ->
+  sem_run (induced_sys rho sy) ls = B2Err e -> strict_err2 e = false.
 Proof.
-  intros Hrho H Hs. apply parse_raw_v_inv in H. destruct H as (st & Hf & -> & _).
-  pose proof (fold_sim_fix rho Hrho (induced_sys rho (sys_of_pstate st)) ls p_empty b2sem_empty st
-                inv_empty (R_empty rho) Hf (induced_agree rho st)) as Hsim.
-  unfold sem_run in Hs. rewrite Hs in Hsim. apply R_sys. exact Hsim.
+  intros Hrho H Hs. pose proof (variant_rejects_ill_formed Fix2 ls sy ren rho e eq_refl Hrho H Hs) as Hx.
+  destruct e; cbn in *; congruence.
 Qed.
+
+Theorem fix2_system_sound ls sy ren rho S :
+  env_wf rho ->
+  parse_raw_v Fix2 true ls = POk (sy, ren) ->
+  sem_run (induced_sys rho sy) ls = B2Ok S -> sys_agrees rho sy S.
+Proof. apply variant_system_sound. reflexivity. Qed.
